@@ -194,12 +194,14 @@ _C11_SYMPTOMS = ("final-store-differs-from-model", "read-data-mismatch", "write-
                  "wdata-underrun")
 
 
-def c11_write_burst_left_on_master_gap(v, case):
-    """LiteDRAMAvalonMM2Native BURST_WRITE: when the master deasserts `write` between two beats of a burst (legal Avalon-MM)
-    and the FIFOs drain, the FSM returns to START although beats are still owed; the remaining beats are taken as a new
-    access at whatever address / burstcount is on the bus.  Accepts only witnesses of runs in which the master actually
-    inserted an idle gap inside a write burst."""
-    return bool((v.get("mid_burst_gaps_in_run") or 0) > 0 and v.get("kind") in _C11_SYMPTOMS)
+def c11_write_commands_gated_on_data_fifo(v, case):
+    """LiteDRAMAvalonMM2Native BURST_WRITE offers a queued write command only while its write-data FIFO is non-empty
+    (`cmd_fifo.source.valid & (0 < wdata_fifo.level)`).  Behind a narrower Avalon bus sits the native up-converter, which
+    takes write data ahead of the commands: when the master pauses inside a burst the data FIFO drains while commands are
+    still queued, and once the last beat has been taken those commands are never offered again -- the burst never ends.
+    (Until the burst-exit fix this was hidden behind the 'burst left on a master gap' defect.)  Accepts only witnesses on the
+    up-converting path of runs in which the master inserted an idle gap inside a write burst."""
+    return bool(v.get("path") == "up" and (v.get("mid_burst_gaps_in_run") or 0) > 0 and v.get("kind") in _C11_SYMPTOMS)
 
 
 def c11_upconverted_burst_never_flushed(v, case):
